@@ -147,7 +147,7 @@ impl Prop for C04Prop {
         "C04"
     }
     fn rule(&self) -> String {
-        "Streams: sigma3 = every sequence of 3 lexemes over the 109-lexeme alphabet (space-joined), default configuration; sigma2cfg = every pair x 8 configurations x 3 separators, in the build with debug assertions; random streams (proptest-generated choice tapes decoded into token soup, arbitrary UTF-8, mutated/spliced/truncated repository seeds, conditional-directive-heavy inputs with up to 64 sequential/nested blocks, nesting up to depth 60 (capped, see finding F-C04-stack), long tokens/gaps at u8/u16 boundaries) x generated configuration x 0-8 cursors on char boundaries or past the end; '_chk' streams run in the build with debug assertions and overflow checks. Oracle: format() returns (no panic; no abort or hang of the worker process, confirmed in a fresh process with a 60 s limit; hang oracle only for inputs <= 256 bytes); conditional passes <= 1 + number of conditional-directive tokens (hook H3); scaling = 32 nesting families (incl. directives nested inside the expression of a conditional directive) x 4 configurations: the number of search iterations of the line wrapper (hook H4) at nesting depths 5 / 10 / 20 may grow by at most a factor 12 per doubling (about cubic), decided without a clock; families whose depth-40 nest has at most 256 bytes are also formatted at depth 40 under the hang limit (work outside the search, e.g. in the lexer). Non-trivial = at least 2 tokens and not cleanly accepted by the grammar (unknown/unterminated token, unbalanced brackets or begin/end, or a warning logged by the formatter); distinct by hash of (input, configuration, cursors)."
+        "Streams: sigma3 = every sequence of 3 lexemes over the 109-lexeme alphabet (space-joined), default configuration; sigma2cfg = every pair x 8 configurations x 3 separators, in the build with debug assertions; random streams (proptest-generated choice tapes decoded into token soup, arbitrary UTF-8, mutated/spliced/truncated repository seeds, conditional-directive-heavy inputs with up to 64 sequential/nested blocks, nesting up to depth 60 (capped, see finding F-C04-stack), long tokens/gaps at u8/u16 boundaries) x generated configuration x 0-8 cursors on char boundaries or past the end; '_chk' streams run in the build with debug assertions and overflow checks. Oracle: format() returns (no panic; no abort or hang of the worker process, confirmed in a fresh process with a 60 s limit; hang oracle only for inputs <= 256 bytes); conditional passes <= 1 + number of conditional-directive tokens (hook H3); scaling = 34 nesting families (incl. directives nested inside the expression of a conditional directive) x 4 configurations: the number of search iterations of the line wrapper (hook H4) at nesting depths 5 / 10 / 20 may grow by at most a factor 12 per doubling (about cubic), decided without a clock; families whose depth-40 nest has at most 1600 bytes are also formatted at depth 40 under a hang limit of 30 s (work outside the search, e.g. in the lexer). Non-trivial = at least 2 tokens and not cleanly accepted by the grammar (unknown/unterminated token, unbalanced brackets or begin/end, or a warning logged by the formatter); distinct by hash of (input, configuration, cursors)."
             .into()
     }
     fn assumptions(&self) -> Vec<String> {
@@ -259,6 +259,17 @@ impl Prop for C04Prop {
             vec![format!("nesting:{d}")]
         }
     }
+    fn hang_limit(&self, case: &Case) -> Option<u64> {
+        if case.extra.get("scaling_kind").is_some() {
+            // nests of one construct up to depth 40: polynomial work is far below a second
+            return Some(30);
+        }
+        if case.input.len() <= 256 {
+            Some(10)
+        } else {
+            None
+        }
+    }
     fn check(&self, case: &Case, ctx: &mut Ctx) -> Outcome {
         if let Some(kind) = case.extra.get("scaling_kind").and_then(|v| v.as_u64()) {
             // work-scaling oracle: search iterations (hook) at nesting depths d, 2d, 4d must
@@ -291,7 +302,7 @@ impl Prop for C04Prop {
             // nest of depth 40 that still fits the size class with a hang limit is formatted as
             // well, so that exponential work there shows as a hang of this case
             let deep = adversarial::nest(kind as usize, 40, close);
-            if deep.len() <= 256 {
+            if deep.len() <= 1600 {
                 let _ = format_with(&case.cfg, &deep);
                 ctx.class("scaling-family-depth-40");
             }
